@@ -35,4 +35,48 @@ theorem companions (X Y : Fin N → ℝ) (t : ℝ) (i : Fin N) (h : Nt Y t i = 0
   simp only [one_smul, Pi.add_apply] at this
   rw [this, h, add_zero]
 
+/-- the order of the pieces does not matter either -/
+theorem flow_split_perm (N0 : Fin N → ℝ) (ts us : List ℝ) (h : ts.Perm us) :
+    ts.foldl (fun v t => Nt v t) N0 = us.foldl (fun v t => Nt v t) N0 := by
+  rw [flow_split, flow_split, h.sum_eq]
+
+/-- scalar multiples: `(a * X).decay(t) = a * X.decay(t)` -/
+theorem flow_smul (X : Fin N → ℝ) (a t : ℝ) : Nt (a • X) t = a • Nt X t := by
+  have h := flow_linear X 0 a t
+  have h0 : Nt (0 : Fin N → ℝ) t = 0 := by
+    have := flow_linear (0 : Fin N → ℝ) 0 1 t
+    simpa using this
+  simpa [h0] using h
+
+/-- the empty inventory stays empty -/
+theorem flow_of_zero (t : ℝ) : Nt (0 : Fin N → ℝ) t = 0 := by
+  simpa using flow_smul (0 : Fin N → ℝ) 0 t
+
+/-- differences: `(X - Y).decay(t) = X.decay(t) - Y.decay(t)` -/
+theorem flow_sub (X Y : Fin N → ℝ) (t : ℝ) : Nt (X - Y) t = Nt X t - Nt Y t := by
+  have h := flow_linear Y X (-1) t
+  have e : (-1 : ℝ) • Y + X = X - Y := by ext i; simp [sub_eq_add_neg, add_comm]
+  rw [e] at h
+  rw [h]; ext i; simp [sub_eq_add_neg, add_comm]
+
+/-- any finite combination of inventories: the decay of `Σ aₖ Xₖ` is `Σ aₖ · decay(Xₖ)` -/
+theorem flow_combination (ps : List (ℝ × (Fin N → ℝ))) (t : ℝ) :
+    Nt (ps.map (fun p => p.1 • p.2)).sum t = (ps.map (fun p => p.1 • Nt p.2 t)).sum := by
+  induction ps with
+  | nil => simpa using flow_of_zero t
+  | cons p ps ih =>
+    simp only [List.map_cons, List.sum_cons]
+    rw [flow_linear, ih]
+
+/-- splitting the time and the inventory at once: every piece of a combination may be decayed
+along its own splitting of the same total time -/
+theorem flow_split_combination (ps : List (ℝ × (Fin N → ℝ))) (ts : List ℝ) :
+    ts.foldl (fun v t => Nt v t) (ps.map (fun p => p.1 • p.2)).sum
+      = (ps.map (fun p => p.1 • ts.foldl (fun v t => Nt v t) p.2)).sum := by
+  rw [flow_split, flow_combination]
+  congr 1
+  apply List.map_congr_left
+  intro p _
+  rw [flow_split]
+
 end RdVerif.C07
